@@ -200,6 +200,9 @@ class Output(BaseOutput):
                             "reference_time", str(self.timer.reference_time)
                         )
                     setattr(v, att, value)
+                units = str(conf["attributes"].get("units", ""))
+                if " since " in units and "calendar" not in conf["attributes"]:
+                    v.calendar = "proleptic_gregorian"  # The calendar of numpy
 
         if self.particle_variables is not None:
             for var, conf in self.particle_variables.items():
@@ -225,6 +228,9 @@ class Output(BaseOutput):
                             "reference_time", str(self.timer.reference_time)
                         )
                     setattr(v, att, value)
+                units = str(conf["attributes"].get("units", ""))
+                if " since " in units and "calendar" not in conf["attributes"]:
+                    v.calendar = "proleptic_gregorian"  # The calendar of numpy
 
         if self.global_attributes is not None:
             for att, value in self.global_attributes.items():
